@@ -11,8 +11,10 @@ import Drivers.Common
             props = `,`-list of `-` (untyped) | `g<N>` (type parameter N) | <ty>
   ty      : int | string | array | c<N>
   val     : int | string | array | float | bool | null | o<N>
-  ops     : `;`-separated: `inst C ty,ty` · `raw C` · `ctor C ty,ty P val` · `write I P val` · `read I P`
-  answer  : space separated: new<I> · crash · ok · rej · noinst · noclass · read
+  ops     : `;`-separated: `inst C ty,ty` · `raw C` · `ctor C ty,ty P val` · `write I P val` · `read I P` ·
+            `call I N val` (method parameter declared with type parameter N) ·
+            `instat S C ty,ty` · `rawat S C` · `ctorat S C ty,ty P val` (the same `new`, executed through AST node S)
+  answer  : space separated: new<I> · crash · ok · rej · noinst · noclass · read · nomember
 -/
 open Model.Gen
 
@@ -63,6 +65,12 @@ def parseOp (s : String) : Option Op :=
   | ["ctor", c, as, p, v] => do some (.instCtor (← c.toNat?) (← parseList parseTy as) (← p.toNat?) (← parseVal v))
   | ["write", i, p, v] => do some (.write (← i.toNat?) (← p.toNat?) (← parseVal v))
   | ["read", i, p] => do some (.read (← i.toNat?) (← p.toNat?))
+  | ["call", i, n, v] => do some (.call (← i.toNat?) (← n.toNat?) (← parseVal v))
+  | ["instat", s, c, as] => do some (.instAt (← s.toNat?) (← c.toNat?) (← parseList parseTy as))
+  | ["instat", s, c] => do some (.instAt (← s.toNat?) (← c.toNat?) [])
+  | ["rawat", s, c] => do some (.instRawAt (← s.toNat?) (← c.toNat?))
+  | ["ctorat", s, c, as, p, v] =>
+    do some (.instCtorAt (← s.toNat?) (← c.toNat?) (← parseList parseTy as) (← p.toNat?) (← parseVal v))
   | _ => none
 
 def parseSemis {α : Type} (f : String → Option α) (s : String) : Option (List α) :=
@@ -76,6 +84,7 @@ def showOut : Out → String
   | .noInst => "noinst"
   | .noClass => "noclass"
   | .readOk => "read"
+  | .noMember => "nomember"
 
 def showOuts (l : List Out) : String := " ".intercalate (l.map showOut)
 
